@@ -58,33 +58,55 @@ def one_history(args):
     rec = {"seed": seed, "mode": mode, "events": [], "violations": []}
     w = core.scratch_dir("c05")
     try:
-        if mode == "inval":
-            base = bc.gen_project(rng)
+        if mode in ("inval", "f29"):
+            # systematic sweep: one edit (in either direction), every k-th invalidation / prune as kill point,
+            # each from a copy of the workspace as it was after the first build
+            a = bc.gen_project(rng)
             e = None
-            for _ in range(30):
-                e = c02_edit(base, rng)
-                if e is not None and e[1] in ("script", "var_value", "class_script", "global_value"):
+            for _ in range(40):
+                e = c02_edit(a, rng)
+                if e is not None and e[1] in ("script", "var_value", "class_script", "global_value", "var_list_del", "dep_env"):
                     break
-            edited = e[0] if e else base
-            proj.write_project(base, w); rc, _ = bc.bob(w, ["dev"] + bc.roots_of(base)); rec["events"].append({"build": 0, "rc": rc})
-            proj.write_project(edited, w)
-            k = rng.choice([1, 1, 2, 3])
-            rc, txt = bc.bob(w, ["dev"] + bc.roots_of(base), crash_env={"BOBV_KILL_INVALIDATE": str(k)})
-            rec["events"].append({"fault": "kill-invalidate", "k": k, "rc": rc, "aborted": rc != 0, "edit": e[1] if e else None}); unlock(w)
-            final = edited
-        elif mode == "f29":
-            # edit, kill right after the first prune, revert
-            base = bc.gen_project(rng)
-            e = None
-            for _ in range(20):
-                e = c02_edit(base, rng)
-                if e is not None and e[1] in ("script", "var_value", "class_script", "global_value"):
-                    break
-            descs = [base, e[0] if e else base, base]
-            proj.write_project(descs[0], w); rc, _ = bc.bob(w, ["dev"] + bc.roots_of(base)); rec["events"].append({"build": 0, "rc": rc})
-            proj.write_project(descs[1], w); rc, txt = bc.bob(w, ["dev"] + bc.roots_of(base), crash_env={"BOBV_KILL_PRUNE": "1"})
-            rec["events"].append({"fault": "kill-prune", "rc": rc, "aborted": rc != 0}); unlock(w)
-            final = descs[2]
+            b = e[0] if e else a
+            first, second = (a, b) if rng.random() < 0.5 else (b, a)
+            proj.write_project(first, w)
+            rc, _ = bc.bob(w, ["dev"] + bc.roots_of(first))
+            rec["events"].append({"build": 0, "rc": rc, "edit": e[1] if e else None})
+            final = second if mode == "inval" else first       # f29: the edit is reverted after the kill
+            rec["final"] = final
+            clean, ctxt = bc.clean_results(final, "c05cl")
+            if clean is None or rc != 0:
+                rec["rejected"] = True
+                return rec
+            var = "BOBV_KILL_INVALIDATE" if mode == "inval" else "BOBV_KILL_PRUNE"
+            rec["final_rc"] = 0
+            for k in range(1, 9):
+                wk = core.scratch_dir("c05k")
+                try:
+                    shutil.rmtree(wk); shutil.copytree(w, wk, symlinks=True)
+                    proj.write_project(second, wk)
+                    rc, txt = bc.bob(wk, ["dev"] + bc.roots_of(second), crash_env={var: str(k)})
+                    ev = {"fault": "kill-invalidate" if mode == "inval" else "kill-prune", "k": k, "rc": rc, "aborted": rc != 0}
+                    rec["events"].append(ev); unlock(wk)
+                    if rc == 0:
+                        break
+                    proj.write_project(final, wk)
+                    rc2, txt2 = bc.bob(wk, ["dev"] + bc.roots_of(final))
+                    if rc2 != 0:
+                        rec["violations"].append(("next-invocation-fails-after-abort", "build after kill #%d failed: %s" % (k, txt2[-300:]), {"k": k}))
+                        break
+                    res, ws = bc.results(wk)
+                    bad = [pkg for pkg, dg in clean.items() if res.get(pkg) != dg]
+                    if bad:
+                        d = ws.get(bad[0], {}).get("dist")
+                        rec["violations"].append(("result-differs-from-clean-after-abort:" + ev["fault"],
+                                                  "package %s differs from the clean build after kill at %s #%d (edit %s)" % (bad[0], ev["fault"], k, e[1] if e else None),
+                                                  {"package": bad[0], "k": k, "files": bc.list_tree(os.path.join(wk, d)) if d else None,
+                                                   "first": first, "second": second}))
+                        break
+                finally:
+                    shutil.rmtree(wk, ignore_errors=True)
+            return rec
         else:
             hist, kinds = bc.gen_history(rng, rng.randint(1, 3))
             proj.write_project(hist[0], w)
